@@ -64,6 +64,7 @@ PROPS = {
         ]
 },
     "C15": {
+        "cli": True,
         "rule": "small scope: all starting tables of 2..3 (quick) / 2..4 colours over a 6-point alphabet with a duplicate and collinear equidistant points, update sequences of depth 2 (quick, sampled) / 3, every num_fixed; random histories of 300 (quick) / 2000 updates on 2..12 colours with coarse-grid ties; brute-force recomputation after every step; all histories non-trivial (ties/duplicates present)",
         "trust": [
                 "needs the pastel_verif hook (DistanceResult::verif_new/verif_update)"
